@@ -1,5 +1,6 @@
 import TlsModel.Proto
 import TlsModel.CT
+import TlsModel.PyInt
 /-
   Driver for C12.
     cbc  vmaj vmin bs dlen mblock seqhex ct datahex table   -> true|false   (cbcCheck)
@@ -7,6 +8,9 @@ import TlsModel.CT
     wf   ...same...                                        -> wellFormed
     strip dlen datahex                                     -> hex of stripPadMac
     pad  bs datahex                                        -> hex of addPadding
+    lt|le|eq|neq a b ; nz|lsb8|lsb16 a                     -> the hand-model helpers (naturals)
+    py and|or|xor|shl|shr|fdiv a b ; py not a              -> Tls.Py (TlsModel/PyInt.lean) on signed
+                                                              ints; `exc` where Python raises
   `table` = comma separated hex digests; entry i is the tag of (header ++ data[:i]) where the
   header is the one for the clamped mac_start of this body (computed by the harness with the real
   hmac object).  The model's `digest` looks its argument's length up in the table.
@@ -53,6 +57,21 @@ def handle : List String → Option String
   | ["nz", a] => do some (toString (ctIsNonZeroU32 (← a.toNat?)))
   | ["lsb8", a] => do some (toString (ctLsbPropU8 (← a.toNat?)))
   | ["lsb16", a] => do some (toString (ctLsbPropU16 (← a.toNat?)))
+  | ["py", op, a, b] => do
+    let a ← a.toInt?
+    let b ← b.toInt?
+    let out (r : Option Int) : String := match r with | some v => toString v | none => "exc"
+    match op with
+    | "and" => some (toString (Py.band a b))
+    | "or" => some (toString (Py.bor a b))
+    | "xor" => some (toString (Py.bxor a b))
+    | "shl" => some (out (Py.lshift a b))
+    | "shr" => some (out (Py.rshift a b))
+    | "fdiv" => some (out (Py.floordiv a b))
+    | "max" => some (toString (Py.max2 a b))
+    | "min" => some (toString (Py.min2 a b))
+    | _ => none
+  | ["py", "not", a] => do some (toString (Py.bnot (← a.toInt?)))
   | _ => none
 
 def main : IO Unit := protoMain handle
